@@ -31,7 +31,13 @@ BOUNDARY_PAIRS = [
     ([(10, 101)], [(10, 108)], 10),              # language renamed, identical content
     ([(10, 100)], [(10, 102)], 10),              # another language altogether
 ]
-STEMS = {1: "src/f1", 2: "src/f2", 3: "src/g3", 4: "lib/h4", 5: "lib/deep/k5"}
+STEMS = {1: "src/f1", 2: "src/f2", 3: "src/g3", 4: "lib/h4", 5: "lib/deep/k5",
+         6: "../outside/o6",                      # a regular file outside the project (symlink target only)
+         7: "lnk7", 8: "src/lnk8"}                # symbolic links (top level / inside the scanned tree)
+FILE_STEMS = [1, 2, 3, 4, 5]                      # stems the ordinary generators write to
+OUTSIDE_STEMS, LINK_STEMS = [6], [7, 8]
+CUR_VERSION = 3                                   # CACHE_VERSION (the run compares cache.json's version with the model's)
+FOREIGN_VERSIONS = [v for v in range(0, CUR_VERSION + 3) if v != CUR_VERSION]
 LINES = ["x=12345;", "// ccccc", "# cccccc", ";; ccccc", "-- ccccc", "        ", "/* cc */", "<< cc >>", "y = f(1)",
          "!ccccccc", "#!cccccc", "/x=1234;", ">> cc <<", "; cccccc"]
 DIRECTIVES = ["// sloc-guard:ignore-file", "# sloc-guard:ignore-file", ";; sloc-guard:ignore-file"]
@@ -157,7 +163,7 @@ def rand_history(rng, ncontents, nops=None, corrupt=True):
     same-second rewrites, deletes, renames, [languages] changes, cache corruption."""
     nops = nops or rng.randint(5, 14)
     t = T0 + rng.randrange(0, 1000)
-    paths = [(s, e) for s in STEMS for e in (1, 2, 10, 0, 3, 11)]
+    paths = [(s, e) for s in FILE_STEMS for e in (1, 2, 10, 0, 3, 11)]
     live = {}
     h = []
     sizes = {}
@@ -188,7 +194,13 @@ def rand_history(rng, ncontents, nops=None, corrupt=True):
         elif r < 0.56:
             h.append(("L", rand_langs(rng)))
         elif r < 0.64 and corrupt:
-            h.append(("C", rng.choice(["g", "v2", "v4", "v99", "h", "r", "g"])))
+            k = rng.choice(["g", "v", "v", "x", "x", "h", "r", "g"])
+            if k == "v":
+                k = "v%d" % rng.choice(FOREIGN_VERSIONS + [99])
+            if k == "x" and live:
+                h.append(("C", "x", rng.choice(FOREIGN_VERSIONS), rng.choice(list(live)), (9, 7, 1, 1, 0), rng.randint(0, 1)))
+            elif k != "x":
+                h.append(("C", k))
         else:
             ex = [rng.choice(paths)] if rng.random() < 0.15 else []
             h.append(("X", rng.choice(CMDS), ex, t))
@@ -211,8 +223,10 @@ def directed_history(rng, contents, tab):
     g = rng.choice(groups)
     a, b = rng.sample(g, 2)
     t = T0 + rng.randrange(0, 1000)
-    p = (rng.choice(list(STEMS)), rng.choice([1, 2, 10]))
-    kind = rng.choice(["d13", "d13", "d13-later", "rename", "rename-dir", "safe", "forge"])
+    p = (rng.choice(FILE_STEMS), rng.choice([1, 2, 10]))
+    kind = rng.choice(["d13", "d13", "d13-later", "rename", "rename-dir", "safe", "forge", "foreign", "foreign", "symlink", "symlink", "symlink"])
+    if kind == "symlink":
+        return symlink_history(rng, contents, tab, groups)
     langs = rand_langs(rng)
     h = [("L", langs)] if langs else []
     if kind == "d13":            # write at t, run at t, rewrite same size at t, run (at t and later)
@@ -220,14 +234,52 @@ def directed_history(rng, contents, tab):
     elif kind == "d13-later":    # run one second after the write: the entry is safe, a rewrite at t+1 changes the mtime
         h += [("W", p, a, t), ("X", rng.choice(CMDS), [], t + 1), ("W", p, b, t + 1), ("X", rng.choice(CMDS), [], t + 1), ("X", rng.choice(CMDS), [], t + 3)]
     elif kind in ("rename", "rename-dir"):
-        q = (rng.choice(list(STEMS)), p[1])
+        q = (rng.choice(FILE_STEMS), p[1])
         if q == p:
             q = ((p[0] % 5) + 1, p[1])
         h += [("W", p, a, t), ("W", q, b, t), ("X", rng.choice(CMDS), [], t + 2), ("R", p, q), ("X", rng.choice(CMDS), [], t + 4)]
+    elif kind == "foreign":      # the cache file of another release: every version but the current one, right hash and metadata,
+        # statistics that differ from the truth, `ignored` field absent or present
+        other = (50, 40, 5, 5, 0)            # no content of the pool has these statistics under any language
+        h += [("W", p, a, t), ("X", rng.choice(CMDS), [], t + 2), ("C", "x", rng.choice(FOREIGN_VERSIONS), p, other, rng.randint(0, 1)),
+              ("X", rng.choice(["check", "files", "summary"]), [], t + 3), ("X", rng.choice(CMDS), [], t + 4)]
     elif kind == "forge":        # well-formed in-place edit of one entry's statistics
         h += [("W", p, a, t), ("X", rng.choice(CMDS), [], t + 2), ("C", "f", p, (9, 7, 1, 1, 0)), ("X", rng.choice(CMDS), [], t + 3)]
     else:                        # same size, different second
         h += [("W", p, a, t), ("X", rng.choice(CMDS), [], t + 1), ("W", p, b, t + 2), ("X", rng.choice(CMDS), [], t + 2)]
+    return h
+
+
+def symlink_history(rng, contents, tab, groups):
+    """A source file reached through a symbolic link and named explicitly (check --files, stats <path>): the link's own
+    mtime is old; the target (inside or outside the scanned tree) is edited, deleted and re-created, or the link is
+    re-pointed; runs name the link (and sometimes ordinary files) explicitly, with full scans in between."""
+    t = T0 + rng.randrange(0, 1000)
+    ext = rng.choice([1, 2])
+    link = (rng.choice(LINK_STEMS), ext)
+    tgt = (rng.choice(FILE_STEMS + OUTSIDE_STEMS + OUTSIDE_STEMS), ext)
+    a, b = rng.sample(range(1, len(contents) + 1), 2)
+    if rng.random() < 0.5 and groups:           # same-size edit of the target
+        a, b = rng.sample(rng.choice(groups), 2)
+    xc = lambda: rng.choice(CMDS)
+    kind = rng.choice(["edit", "edit", "edit", "retarget", "retarget-same-meta", "recreate", "mixed"])
+    h = [("W", tgt, a, t), ("K", link, tgt), ("XF", xc(), [link], t + 2)]
+    if kind == "edit":
+        h += [("W", tgt, b, t + 3), ("XF", xc(), [link], t + 4), ("X", xc(), [], t + 5), ("XF", xc(), [link], t + 6)]
+    elif kind in ("retarget", "retarget-same-meta"):
+        tgt2 = (rng.choice([s for s in FILE_STEMS if s != tgt[0]]), ext)
+        if kind == "retarget-same-meta" and groups:
+            a, b = rng.sample(rng.choice(groups), 2)
+            h = [("W", tgt, a, t), ("W", tgt2, b, t), ("K", link, tgt), ("XF", xc(), [link], t + 2), ("K", link, tgt2), ("XF", xc(), [link], t + 4)]
+        else:
+            h = [("W", tgt, a, t), ("W", tgt2, b, t + 1), ("K", link, tgt), ("XF", xc(), [link], t + 3), ("K", link, tgt2), ("XF", xc(), [link], t + 4),
+                 ("W", tgt2, a, t + 5), ("XF", xc(), [link, tgt2], t + 6)]
+    elif kind == "recreate":
+        h += [("D", tgt), ("X", xc(), [], t + 3), ("W", tgt, b, t + 4), ("XF", xc(), [link], t + 5)]
+    else:
+        other = (rng.choice([s for s in FILE_STEMS if s != tgt[0]]), rng.choice([1, 2]))
+        h += [("W", other, b, t + 2), ("XF", xc(), [link, other], t + 3), ("W", tgt, b, t + 4), ("W", other, a, t + 4),
+              ("XF", xc(), [other, link], t + 5), ("X", xc(), [], t + 6)]
     return h
 
 
@@ -245,9 +297,16 @@ def norm_history(h):
         elif k == "L":
             out.append(("L", [tuple(x) for x in o[1]]))
         elif k == "C":
-            out.append(("C", "f", tuple(o[2]), tuple(o[3])) if o[1] == "f" else tuple(o))
+            if o[1] == "f":
+                out.append(("C", "f", tuple(o[2]), tuple(o[3])))
+            elif o[1] == "x":
+                out.append(("C", "x", o[2], tuple(o[3]), tuple(o[4]), o[5]))
+            else:
+                out.append(tuple(o))
+        elif k == "K":
+            out.append(("K", tuple(o[1]), tuple(o[2])))
         else:
-            out.append(("X", o[1], [tuple(q) for q in o[2]], o[3]))
+            out.append((k, o[1], [tuple(q) for q in o[2]], o[3]))
     return out
 
 
@@ -265,10 +324,10 @@ def boundary_history(rng, contents, tab):
     cands = [cid for cid in range(1, len(contents) + 1) if (tab.get((la, cid)) if la else "skip") != (tab.get((lb, cid)) if lb else "skip")]
     cid = rng.choice(cands) if cands else rng.randint(1, len(contents))
     t = T0 + rng.randrange(0, 1000)
-    p = (rng.choice(list(STEMS)), ext)
+    p = (rng.choice(FILE_STEMS), ext)
     h = [("L", a), ("W", p, cid, t)]
     if rng.random() < 0.5:
-        h.append(("W", (rng.choice(list(STEMS)), rng.choice([1, 2, 10])), rng.randint(1, len(contents)), t))
+        h.append(("W", (rng.choice(FILE_STEMS), rng.choice([1, 2, 10])), rng.randint(1, len(contents)), t))
     h += [("X", rng.choice(CMDS), [], t + 2), ("L", b), ("X", rng.choice(CMDS), [], t + 3)]
     if rng.random() < 0.5:
         h += [("L", a), ("X", rng.choice(CMDS), [], t + 4)]
@@ -276,22 +335,64 @@ def boundary_history(rng, contents, tab):
 
 
 def ops_wire(h):
+    """The history as the model sees it. A symbolic link is, for fs::metadata / fs::read, another name for the target's
+    content and mtime: K (link) becomes Copy target link, and every later change of the target is mirrored on the
+    link path; scans do not follow links and never see files outside the project (both go into the excluded list);
+    a run that names its paths (XF) excludes everything else."""
     out = []
+    live, links = set(), {}
+
+    def mirror_write(p, c, t):
+        for l, q in links.items():
+            if q == p:
+                out.append("W:%s:%d:%d" % (wpath(l), c, t))
+
+    def mirror_gone(p):
+        for l, q in links.items():
+            if q == p:
+                out.append("D:" + wpath(l))
     for o in h:
         if o[0] == "W":
+            links.pop(o[1], None)
+            live.add(o[1])
             out.append("W:%s:%d:%d" % (wpath(o[1]), o[2], o[3]))
+            mirror_write(o[1], o[2], o[3])
         elif o[0] == "D":
             out.append("D:" + wpath(o[1]))
+            if o[1] in links:
+                del links[o[1]]
+            else:
+                live.discard(o[1])
+                mirror_gone(o[1])
         elif o[0] == "R":
+            if o[1] in links or o[1] not in live:
+                continue                      # (the replay skips a rename of a link / of nothing as well)
+            links.pop(o[2], None)
+            live.discard(o[1])
+            live.add(o[2])
             out.append("R:%s:%s" % (wpath(o[1]), wpath(o[2])))
+            mirror_gone(o[1])
+            for l, q in links.items():
+                if q == o[2]:
+                    out.append("P:%s:%s" % (wpath(o[2]), wpath(l)))
+        elif o[0] == "K":
+            live.discard(o[1])
+            links[o[1]] = o[2]
+            out.append("P:%s:%s" % (wpath(o[2]), wpath(o[1])) if o[2] in live else "D:" + wpath(o[1]))
         elif o[0] == "L":
             out.append("L:" + "/".join("%d=%d" % x for x in o[1]))
         elif o[0] == "C" and o[1] == "f":
             out.append("C:f:%s:%s" % (wpath(o[2]), ".".join(map(str, o[3]))))
+        elif o[0] == "C" and o[1] == "x":
+            out.append("C:x%d:%s:%s" % (o[2], wpath(o[3]), ".".join(map(str, o[4]))))
         elif o[0] == "C":
             out.append("C:" + o[1])
+        elif o[0] == "XF":
+            ex = [p for p in sorted(live | set(links)) if p not in o[2]]
+            out.append("X:%s:%s:%d" % (o[1], "/".join(wpath(p) for p in ex) or "-", o[3]))
         else:
-            out.append("X:%s:%s:%d" % (o[1], "/".join(wpath(p) for p in o[2]) or "-", o[3]))
+            ex = list(o[2]) + [p for p in sorted(live | set(links)) if (p in links or p[0] in OUTSIDE_STEMS) and p not in o[2]]
+            out.append("X:%s:%s:%d" % (o[1], "/".join(wpath(p) for p in ex) or "-", o[3]))
     return ",".join(out)
 
 
@@ -308,11 +409,13 @@ def config_text(langs):
     return t
 
 
-def cmd_args(kind, excl):
+def cmd_args(kind, excl, only=None):
     a = {"check": ["check", "--format", "json"], "summary": ["stats", "summary", "--format", "json"],
          "files": ["stats", "files", "--format", "json"], "snapshot": ["snapshot", "--force"]}[kind]
     for p in excl:
         a += ["-x", "**/" + os.path.basename(real_path(p))]
+    for p in only or []:                    # explicitly named paths: check --files P, stats/snapshot P
+        a += (["--files", "./" + real_path(p)] if kind == "check" else ["./" + real_path(p)])
     return ["--color", "never"] + a
 
 
@@ -373,8 +476,27 @@ def read_cache(sb, contents):
         return "CORRUPT", None
 
 
-def corrupt_cache(sb, kind, rng=None, offset=None, forge=None):
+def corrupt_cache(sb, kind, rng=None, offset=None, forge=None, foreign=None):
     p = os.path.join(sb.proj, ".sloc-guard", "cache.json")
+    if kind == "x":
+        # the well-formed cache file of another release: version v, same config hash and metadata, one entry with
+        # the statistics that release computed, `ignored` field absent (older format) or present
+        v, path, stats, ign = foreign
+        try:
+            j = json.load(open(p))
+            if not (isinstance(j, dict) and isinstance(j.get("files"), dict)):
+                return
+            j["version"] = v
+            e = j["files"].get("./" + real_path(path))
+            if e is not None:
+                e["stats"] = dict(zip(("total", "code", "comment", "blank", "ignored"), stats))
+            if not ign:
+                for ent in j["files"].values():
+                    ent["stats"].pop("ignored", None)
+            open(p, "w").write(json.dumps(j, indent=2))
+        except Exception:
+            pass
+        return
     if kind == "f":
         # in-place edit that keeps the file well-formed: replace the statistics of one entry
         try:
@@ -432,15 +554,25 @@ def replay_history(exe, contents, h, rng=None, threads="2", trunc_offsets=None):
         sb.write(".sloc-guard.toml", config_text(langs))
         for o in h:
             if o[0] == "W":
+                fp = os.path.join(sb.proj, real_path(o[1]))
+                if os.path.islink(fp):
+                    os.remove(fp)
                 p = sb.write(real_path(o[1]), contents[o[2] - 1])
                 os.utime(p, (o[3], o[3]))
+            elif o[0] == "K":
+                lp, tp = os.path.join(sb.proj, real_path(o[1])), os.path.normpath(os.path.join(sb.proj, real_path(o[2])))
+                os.makedirs(os.path.dirname(lp), exist_ok=True)
+                if os.path.lexists(lp):
+                    os.remove(lp)
+                os.symlink(os.path.relpath(tp, os.path.dirname(lp)), lp)
+                os.utime(lp, (T0 - 5000, T0 - 5000), follow_symlinks=False)      # the link itself is old
             elif o[0] == "D":
                 fp = os.path.join(sb.proj, real_path(o[1]))
-                if os.path.exists(fp):
+                if os.path.lexists(fp):
                     os.remove(fp)
             elif o[0] == "R":
                 a, b = os.path.join(sb.proj, real_path(o[1])), os.path.join(sb.proj, real_path(o[2]))
-                if os.path.exists(a):
+                if os.path.exists(a) and not os.path.islink(a):
                     os.makedirs(os.path.dirname(b), exist_ok=True)
                     os.rename(a, b)
             elif o[0] == "L":
@@ -449,11 +581,13 @@ def replay_history(exe, contents, h, rng=None, threads="2", trunc_offsets=None):
             elif o[0] == "C":
                 if o[1] == "f":
                     corrupt_cache(sb, "f", forge=(o[2], o[3]))
+                elif o[1] == "x":
+                    corrupt_cache(sb, "x", foreign=(o[2], o[3], o[4], o[5]))
                 else:
                     corrupt_cache(sb, o[1], rng, offset=o[2] if len(o) > 2 else None)
             else:
                 env = {"SGV_NOW": str(o[3]), "RAYON_NUM_THREADS": threads}
-                args = cmd_args(o[1], o[2])
+                args = cmd_args(o[1], [], only=o[2]) if o[0] == "XF" else cmd_args(o[1], o[2])
                 un = sb.run(exe, args + ["--no-sloc-cache"], env=env)
                 ca = sb.run(exe, args, env=env)
                 view, hsh = read_cache(sb, contents)
